@@ -3,6 +3,7 @@ C20 — Garbage is reclaimed and heap accounting is exact after a full collectio
 Same allocator model as C05/C09.
 -/
 import LaytheVerif.Props.C05
+import LaytheVerif.Lemmas.AllocGen
 namespace LaytheVerif.C20
 open LaytheVerif.Alloc LaytheVerif.C05
 
